@@ -307,18 +307,14 @@ func (m *Model) binaryArith(n *Node, next emitFn) *merr {
 	if err != nil {
 		return err
 	}
-	if len(l) != 1 {
-		// whether the right operand is still evaluated (PostgreSQL evaluates both operands before
-		// it checks either) is not fixed by the statements: when it would raise a non-suppressible
-		// error, which of the two errors surfaces is left open
-		if _, rerr := m.collectUnwrapped(n.B, true); rerr != nil && (rerr.hard || rerr.dontCare) {
-			return openErr("left operand of %s is not a singleton and the right operand raises a non-suppressible error", n.S)
-		}
-		return suppErr("left operand of %s is not a single numeric value", n.S)
-	}
+	// (D51) both operands are evaluated before either is checked, so an error of the right operand
+	// is reported even when the left one is not a singleton
 	r, err := m.collectUnwrapped(n.B, true)
 	if err != nil {
 		return err
+	}
+	if len(l) != 1 {
+		return suppErr("left operand of %s is not a single numeric value", n.S)
 	}
 	if len(r) != 1 {
 		return suppErr("right operand of %s is not a single numeric value", n.S)
